@@ -587,6 +587,7 @@ where
             })?;
         let buf = trim_trail_empty_bytes(&self.buffer);
         if buf.is_empty() {
+            self.position += len as u64;
             return Ok(PrimitiveValue::Empty);
         }
 
@@ -626,6 +627,7 @@ where
             })?;
         let buf = trim_trail_empty_bytes(&self.buffer);
         if buf.is_empty() {
+            self.position += len as u64;
             return Ok(PrimitiveValue::Empty);
         }
 
@@ -658,6 +660,7 @@ where
             })?;
         let buf = trim_trail_empty_bytes(&self.buffer);
         if buf.is_empty() {
+            self.position += len as u64;
             return Ok(PrimitiveValue::Empty);
         }
 
@@ -695,6 +698,7 @@ where
             })?;
         let buf = trim_trail_empty_bytes(&self.buffer);
         if buf.is_empty() {
+            self.position += len as u64;
             return Ok(PrimitiveValue::Empty);
         }
 
@@ -727,6 +731,7 @@ where
             })?;
         let buf = trim_trail_empty_bytes(&self.buffer);
         if buf.is_empty() {
+            self.position += len as u64;
             return Ok(PrimitiveValue::Empty);
         }
 
